@@ -241,7 +241,8 @@ func SkipRows(fn *ssa.Function) []string {
 	// combination of conditions each return is taken and each block with effects runs. The innermost guard
 	// of the rows below cannot tell `if open { if none { return A }; return B }` from
 	// `if none { return A }; if open { return B }`.
-	if t := core.ExtractTable(fn); t.Err == "" && t.N() >= 2 && t.N() <= 12 {
+	// (loop-free functions only: with back edges cut the table is an approximation that depends on block structure)
+	if t := core.ExtractTable(fn); len(loops) == 0 && t.Err == "" && t.N() >= 1 && t.N() <= 14 {
 		atomText := make([]string, t.N())
 		for i := 0; i < t.N(); i++ {
 			if v := t.AtomValue(i); v != nil {
@@ -301,27 +302,71 @@ func SkipRows(fn *ssa.Function) []string {
 				}
 				out = append(out, "decides: returns "+strings.Join(vs, ", ")+" iff "+sig(cond))
 			}
-			first := ""
-			for _, in := range b.Instrs {
-				if isWork(in) {
+			if !cond.IsTrue() {
+				for _, in := range b.Instrs {
+					if !isWork(in) {
+						continue
+					}
+					name := ""
 					switch x := in.(type) {
 					case *ssa.Call:
 						if bi, isB := x.Call.Value.(*ssa.Builtin); isB {
-							first = "builtin " + bi.Name()
+							name = "builtin " + bi.Name()
 						} else {
-							first = shortCallee(&x.Call)
+							name = shortCallee(&x.Call)
 						}
 					case *ssa.Store:
 						_, f := core.FieldOf(x.Addr)
-						first = "store ." + f
+						name = "store ." + f
 					default:
-						first = fmt.Sprintf("%T", in)
+						name = fmt.Sprintf("%T", in)
 					}
-					break
+					out = append(out, "decides: "+name+" runs iff "+sig(cond))
 				}
 			}
-			if first != "" && len(core.ControllingEdges(b)) > 0 {
-				out = append(out, "decides: "+first+" … runs iff "+sig(cond))
+		}
+		// which value a variable takes under which condition: every non-phi input of a phi outside loop
+		// headers with the exact condition of the edge it arrives on (a set: how phis nest is decided by
+		// block fusing, the condition of an assignment reaching its join is not)
+		selSeen := map[string]bool{}
+		for _, b := range fn.Blocks {
+			isHeader := false
+			for _, l := range loops {
+				if l.Header == b {
+					isHeader = true
+				}
+			}
+			if isHeader {
+				continue
+			}
+			for _, in := range b.Instrs {
+				ph, ok := in.(*ssa.Phi)
+				if !ok {
+					break
+				}
+				texts := map[string]bool{}
+				var rows []string
+				for i, e := range ph.Edges {
+					if _, nested := e.(*ssa.Phi); nested {
+						texts["φ"] = true
+						continue
+					}
+					ec, ok := t.EdgeCond(b.Preds[i], b)
+					if !ok {
+						continue
+					}
+					tx := clip(argText(e), 100)
+					texts[tx] = true
+					rows = append(rows, "selects: "+tx+" iff "+sig(ec))
+				}
+				if len(texts) >= 2 {
+					for _, r := range rows {
+						if !selSeen[r] {
+							selSeen[r] = true
+							out = append(out, r)
+						}
+					}
+				}
 			}
 		}
 	}
